@@ -96,8 +96,9 @@ class Shp:
 
 
 class Interp:
-    def __init__(self, prog, func, data, axisname, rank, axis, dispatch_call, nbw='self.nb_words', take_branch=True):
+    def __init__(self, prog, func, data, axisname, rank, axis, dispatch_call, nbw='self.nb_words', take_branch=True, test_value=None):
         self.prog = prog
+        self.test_value = test_value
         self.f = func
         self.rank, self.axis = rank, axis
         self.nbw = nbw
@@ -150,10 +151,9 @@ class Interp:
             if st.body and isinstance(st.body[-1], ast.Raise) and not st.orelse:
                 return        # argument validation
             if self.nbw in norm(st.test):
-                if self.take:
-                    self.block(st.body)
-                else:
-                    self.block(st.orelse)
+                # `take` = the grouping case (nb_words >= 2); which arm that is follows from the value of the test
+                v = self.test_value(st.test, self.take) if self.test_value is not None else self.take
+                self.block(st.body if v else st.orelse)
                 return
             raise Unknown(f'branch `{norm(st.test)[:50]}`')
         if isinstance(st, ast.Return):
